@@ -31,6 +31,8 @@ def programs(tier):
          # every currency has its own regenerate / debit race (NADH is touched by convert, by the top-up inside an ATP spend, and by direct spends)
          ("nadh-regenerate-vs-convert", [(6, 0, 5, 0, [C(1, 4), ("consume", 1, 1, 3, "nadh", False, 10)])], [[R(1, 2, "nadh")], [V(1, 2)]]),
          ("nadh-regenerate-vs-topup", [(3, 0, 4, 0, [("consume", 1, 1, 2, "nadh", False, 10)])], [[R(1, 2, "nadh")], [C(1, 4, p=10)]]),
+         ("atp-debt-vs-gtp-debt", [(2, 2, 0, 3, [])], [[C(1, 4, ad=True, p=10)], [C(1, 4, "gtp", ad=True, p=10)]]),        # the debt ledger is shared by the currencies
+         ("gtp-spend-vs-atp-regenerate-with-debt", [(2, 3, 0, 3, [C(1, 4, ad=True, p=10)])], [[C(1, 2, "gtp", p=10)], [R(1, 3)]]),
          ("gtp-regenerate-vs-spend", [(3, 4, 0, 0, [C(1, 3, "gtp", p=10)])], [[R(1, 2, "gtp")], [C(1, 1, "gtp", p=10)]])]
     if tier != "quick":
         P += [("three-ops", [(8, 0, 2, 2, [])], [[C(1, 3, p=10), V(1, 2), C(1, 4, ad=True, p=10)], [R(1, 2), C(1, 5, p=10)]]),
